@@ -376,6 +376,9 @@ def mk_page(regions, ro=None, pid=0, size=(100, 200)):
 # coordinate sets in quarters: integers, exact halves (ties to even), negative values, quarters, many points
 COORDS = [
     {"bl": ((0, 0), (40, 0)), "poly": ((0, -20), (40, -20), (40, 36), (0, 36))},
+    # explicitly closed rings (last vertex = first), and a ring whose end points merely round to the same integer point
+    {"bl": ((16, 16), (176, 16), (176, 32), (16, 16)), "poly": ((0, -20), (40, -20), (40, 36), (0, 36), (0, -20))},
+    {"bl": ((0, 0), (40, 0)), "poly": ((0, -20), (40, -20), (40, 36), (0, 36), (1, -19))},
     {"bl": ((2, 6), (10, -14), (42, 30)), "poly": ((2, -6), (6, -10), (170, 10), (174, 14), (-2, 50))},
     {"bl": ((-12, 8), (20, 8)), "poly": ((-13, 1), (21, 3), (23, 41), (-15, 43))},
     {"bl": ((1, 3), (5, 7), (9, 11), (13, 15), (400, 18)), "poly": ((0, 0), (402, 0), (402, 82), (0, 82))},
@@ -400,6 +403,8 @@ def attribute_pages(ntexts, nconfs, nheights, ncoords, region_attrs):
         for rt, ty, pid in itertools.product([None] + list(range(ntexts)), [None, 0, 1], [0, 1]):
             pages.append(mk_page([mk_region("région:1", [ln], typ=ty, text=rt, poly=((1, 1), (3, 3), (-2, 6)))], pid=pid,
                                  size=(1, 30000)))
+        # a region outline given as a closed ring
+        pages.append(mk_page([mk_region("r1", [ln], typ=0, text=1, poly=((8, 8), (808, 8), (808, 648), (8, 648), (8, 8)))]))
     return pages
 
 
